@@ -305,6 +305,8 @@ def deeper(keys, leaves, maxw, subs, kinds):
 
 def run(ctx):
     rep = ctx.new_report()
+    from vlib.ref import noise as _noise
+    E.set_noise(_noise.strutils_noise())
     full = ctx.thorough
     l1_full = level1(KEYS8, LEAVES if full else LEAVES[:8], 3, CONTAINERS)
     l1_w3 = []
